@@ -24,12 +24,15 @@ Weighted == <<"add", "flag", "select", "getfile", "observe", "blacklist", "purge
 \* (an operator without parameters would be evaluated once and cached by TLC: the draw has to go through Pick)
 FamIdx == IF Emit THEN 1..Len(Weighted) ELSE 1..7
 
+\* breadth first: an index without AutoDownload ("manual") is the same as no index for the model
+GenOps(f) == IF Emit THEN OpsOf(f, Vs) ELSE {o \in OpsOf(f, Vs) : o.idx # "manual"}
+
 \* Histories only need the operations; in simulation the model follows the intended purge algorithm.
 Outcomes(s, o) == IF Emit /\ o.op = "Purge" THEN {Out(Ok, PurgeRef(s, o.keep))} ELSE Step(s, o)
 
 DoOp == /\ ~done
         /\ Emit => Len(hist) < MaxLen
-        /\ \E i \in Pick(FamIdx) : \E o \in Pick(OpsOf(Weighted[i], Vs)) : \E x \in Pick(Outcomes(st, o)) :
+        /\ \E i \in Pick(FamIdx) : \E o \in Pick(GenOps(Weighted[i])) : \E x \in Pick(Outcomes(st, o)) :
               /\ st' = x.st
               /\ hist' = IF Emit THEN Append(hist, o) ELSE hist
         /\ UNCHANGED <<ini, done>>
